@@ -87,6 +87,13 @@ fn full_checks(bytes: &[u8], hl: usize, m: i128) -> CaseResult {
     dec!(std::num::NonZeroIsize, isize::MIN, isize::MAX, m != 0, |x: std::num::NonZeroIsize| x.get() as i128);
     dec!(std::num::Wrapping<u16>, u16::MIN, u16::MAX, true, |x: std::num::Wrapping<u16>| x.0 as i128);
     dec!(std::sync::atomic::AtomicI8, i8::MIN, i8::MAX, true, |x: std::sync::atomic::AtomicI8| x.into_inner() as i128);
+    // every wrapper whose Decode goes through an integer of its own width: atomics, Wrapping, Cell
+    macro_rules! wrappers { ($($a:ident $p:ty),*) => {$(
+        dec!(std::sync::atomic::$a, <$p>::MIN, <$p>::MAX, true, |x: std::sync::atomic::$a| x.into_inner() as i128);
+        dec!(std::num::Wrapping<$p>, <$p>::MIN, <$p>::MAX, true, |x: std::num::Wrapping<$p>| x.0 as i128);
+        dec!(std::cell::Cell<$p>, <$p>::MIN, <$p>::MAX, true, |x: std::cell::Cell<$p>| x.get() as i128);
+    )*}}
+    wrappers!(AtomicU8 u8, AtomicU16 u16, AtomicU32 u32, AtomicU64 u64, AtomicUsize usize, AtomicI16 i16, AtomicI32 i32, AtomicI64 i64, AtomicIsize isize);
 
     // The reported data type names a type whose accessor accepts the item.
     let d = Decoder::new(bytes);
@@ -160,7 +167,7 @@ fn small_args(i: u64, st: &mut Stats) -> CaseResult {
     let w = W::ALL[((i >> 1) % 5) as usize];
     let arg = i / 10;
     if w < W::min_for(arg) { return Ok(()) }
-    if i % 7919 == 0 { st.sample(i, || format!("{} decoded through 40 typed targets; value {}", vcore::item::hex(&encode(neg, arg, w)), if neg { -1 - arg as i128 } else { arg as i128 })) }
+    if i % 7919 == 0 { st.sample(i, || format!("{} decoded through 67 typed targets; value {}", vcore::item::hex(&encode(neg, arg, w)), if neg { -1 - arg as i128 } else { arg as i128 })) }
     if one(neg, arg, w, st, true)? { st.nontrivial_enum(1) }
     Ok(())
 }
@@ -186,7 +193,7 @@ fn boundaries(i: u64, st: &mut Stats) -> CaseResult {
     if v < 0 || v > u64::MAX as i128 { return Ok(()) }
     let arg = v as u64;
     if w < W::min_for(arg) { return Ok(()) }
-    st.sample(i, || format!("{} (2^{}{:+}) through 40 typed targets", vcore::item::hex(&encode(neg, arg, w)), k, d));
+    st.sample(i, || format!("{} (2^{}{:+}) through 67 typed targets", vcore::item::hex(&encode(neg, arg, w)), k, d));
     if one(neg, arg, w, st, true)? { st.nontrivial_enum(1) }
     Ok(())
 }
